@@ -150,12 +150,32 @@ Lemma mint_step_in_range s op : ms_in_range s -> int_in_range (mint_op_amount op
   ms_in_range (fst (mint_step s op)).
 Proof.
   intros H A. destruct op as [k a | k a]; cbn [mint_step mint_op_amount] in *.
-  - destruct (a =? 0); [exact H|].
+  - destruct ((a =? 0) || (a <? mint_min)); [exact H|].
     assert (H0 : ms_in_range match ms_get k s with Some _ => s | None => ms_set k 0 s end)
       by (destruct (ms_get k s); [exact H | apply ms_set_in_range; [exact H | reflexivity]]).
-    destruct (i128_ok _ && int_in_range _) eqn:C; cbn [fst]; [|exact H0].
-    apply andb_true_iff in C. destruct C as [_ C]. apply ms_set_in_range; assumption.
-  - destruct (a =? 0); cbn [fst]; [exact H | apply ms_set_in_range; assumption].
+    destruct (i128_ok _ && _) eqn:C; cbn [fst]; [|exact H0].
+    apply andb_true_iff in C. destruct C as [_ C]. apply ms_set_in_range; [exact H0|].
+    apply int_in_range_iff. unfold mint_min, int_max in C. lia.
+  - destruct ((a =? 0) || (a <? mint_min)); cbn [fst]; [exact H | apply ms_set_in_range; assumption].
+Qed.
+
+(* since /repo 0175f0b the builder never holds -2^64 (whose as_negative is truncated) *)
+Lemma mint_step_above_min s op : Forall (fun kv : N * Z => snd kv <> int_min) s ->
+  Forall (fun kv : N * Z => snd kv <> int_min) (fst (mint_step s op)).
+Proof.
+  assert (S : forall k v s, Forall (fun kv : N * Z => snd kv <> int_min) s -> v <> int_min ->
+              Forall (fun kv : N * Z => snd kv <> int_min) (ms_set k v s)).
+  { intros k v s0 H V. induction H as [|[k' v'] s1 Hk Hs IH]; cbn [ms_set].
+    - apply Forall_cons; [exact V | apply Forall_nil].
+    - destruct (k =? k')%N; apply Forall_cons; auto. }
+  intros H. destruct op as [k a | k a]; cbn [mint_step].
+  - destruct ((a =? 0) || (a <? mint_min)) eqn:G; [exact H|].
+    assert (H0 : Forall (fun kv : N * Z => snd kv <> int_min) match ms_get k s with Some _ => s | None => ms_set k 0 s end)
+      by (destruct (ms_get k s); [exact H | apply S; [exact H | discriminate]]).
+    destruct (i128_ok _ && _) eqn:C; cbn [fst]; [|exact H0].
+    apply andb_true_iff in C. destruct C as [_ C]. apply S; [exact H0|]. unfold mint_min, int_max, int_min in *. lia.
+  - destruct ((a =? 0) || (a <? mint_min)) eqn:G; cbn [fst]; [exact H|]. apply S; [exact H|].
+    unfold mint_min, int_max, int_min in *. lia.
 Qed.
 
 Theorem mint_run_in_range ops : forall s, ms_in_range s ->
@@ -246,6 +266,6 @@ Proof. split; vm_compute; reflexivity. Qed.
 
 (* premises of int_obtain_in_range are satisfiable on non-trivial sources *)
 Example int_obtain_example :
-  let src := SMint [MAdd 1%N int_min; MSet 2%N 5; MAdd 1%N int_max; MAdd 1%N int_max; MAdd 1%N 7] 1%N in
-  int_src_wf src = true /\ int_src_bytes_ok src /\ int_obtain src = Some (int_max - 1).
+  let src := SMint [MAdd 1%N (- int_max); MSet 2%N 5; MAdd 1%N int_max; MAdd 1%N int_max; MAdd 1%N 7] 1%N in
+  int_src_wf src = true /\ int_src_bytes_ok src /\ int_obtain src = Some int_max.
 Proof. repeat split; vm_compute; reflexivity. Qed.
